@@ -37,6 +37,20 @@ CLAIMED = {
             "of offsets for all heights up to 63, on every leaf count up to 2^Hn plus the 2^k grid up to 2^64-1, on every node of every forest up to Noff leaves "
             "(DetectOffset) and on every non-nested target subset of small forests in several allocated heights (ProofPositions), and compared with the reference "
             "row geometry (itself cross-checked against math/big).", "6 C16"),
+    "C07": ("light", "explicit-state BFS over light-client histories (Stump.Update + Proof.Update) vs reference model and a full prover",
+            "Every light-client history with at most Nmax leaves ever added (every deletion subset x every addition count x every subset of the additions to remember), "
+            "starting from the empty cached proof, is executed with Stump.Update + Proof.Update on a client that holds only stump, proof and hashes; after every transition "
+            "the held (hash, position) pairs must be exactly previous minus deleted plus remembered, at the reference positions, with exactly the canonical proof hashes, "
+            "accepted by Verify and equal to what a Pollard run alongside proves for those leaves.", "6 C07"),
+    "C08": ("light", "explicit-state BFS over light-client histories with Proof.Undo transitions (budgeted) vs reference model",
+            "The C07 search extended with Undo transitions (Proof.Undo with the undone block's own data, newest first, two undos per path, arbitrary further blocks after "
+            "them): after every undo and every later update the held set must be exactly the held leaves that existed before the block (block-deleted leaves may or may not "
+            "return), never a leaf the undone block added or an invented one, with reference positions, canonical hashes, accepted by Verify against the pre-block stump and "
+            "equal to the full prover's proof. One genuine defect is recorded as known finding KF-1 (attributed by signature + exact case set).", "6 C08"),
+    "C11": ("light", "explicit-state BFS over stump histories; UpdateData vs derived reference oracles per transition",
+            "For every transition of the stump history search (every deletion subset x addition count, N<=Nmax) the UpdateData returned by Stump.Update is compared field by field "
+            "with oracles derived from the reference forest: PrevNumLeaves; ToDestroy = empty roots consumed by the binary carry, in order, post-block coordinates; NewDelPos/Hash = every "
+            "pre-block path position of the deleted targets with the post-deletion subtree hash; NewAddPos/Hash = every added leaf and both children of every created node, sorted, duplicate-free.", "6 C11"),
 }
 
 NOT_YET = {
@@ -75,6 +89,8 @@ def main():
         "engines": [
             {"name": "hist", "path": "/verif/vmc/mc/hist.go", "serves_properties": ["C01", "C02", "C06", "C10"],
              "kind_free_text": "explicit-state breadth-first search over operation histories; every transition is executed on the real implementation and compared with a reference model"},
+            {"name": "light", "path": "/verif/vmc/mc/light.go", "serves_properties": ["C07", "C08", "C11"],
+             "kind_free_text": "explicit-state breadth-first search over light-client histories (Stump.Update, Proof.Update, Proof.Undo on the real code) against the reference model and a full prover"},
             {"name": "geom", "path": "/verif/vmc/mc/geom.go", "serves_properties": ["C16"],
              "kind_free_text": "exhaustive enumeration of the argument space of the pure position functions (bounded heights exhaustive, boundary grid to 63 rows) against the reference geometry"},
         ],
